@@ -152,6 +152,13 @@ func checkWatchedPerms() error {
 			return fmt.Errorf("the permutation returned by %s changed from %v to %v when CanonicalIsomorph was called again", w.what, w.copy, w.live)
 		}
 	}
+	// ... and the caller may do with a returned labelling what it likes: overwrite every one of them; a later call
+	// (in this or a later case) must not see that
+	for _, w := range watchedPerms {
+		for i := range w.live {
+			w.live[i] = -1
+		}
+	}
 	return nil
 }
 
@@ -401,8 +408,24 @@ func checkAutCase(c autCase, rec *Rec) error {
 		if err := checkAutData("CanonicalIsomorphFull("+rep+")", g, nil, perm, orbits, gens); err != nil {
 			return err
 		}
+		scribbleCanonResult(perm, orbits, gens)
 	}
 	return nil
+}
+
+// scribbleCanonResult overwrites what CanonicalIsomorphFull returned (fresh values that belong to the caller).
+func scribbleCanonResult(perm []int, orbits disjoint.Set, gens [][]int) {
+	for i := range perm {
+		perm[i] = -1
+	}
+	for i := range orbits {
+		orbits[i] = -7
+	}
+	for _, g := range gens {
+		for i := range g {
+			g[i] = -2
+		}
+	}
 }
 
 type reuseCase struct {
